@@ -24,8 +24,12 @@ static void run(Src &s) {
   }
 
   econf_file *kf = nullptr;
-  econf_err e = econf_readFile(&kf, path.c_str(), f.D.c_str(), f.C.c_str());
-  VF_CHECK(e == ECONF_SUCCESS, "read-failed", "econf_readFile returned " << e << " (" << econf_errString(e) << ")");
+  // every entry point that can read one file has to deliver the same configuration
+  int via = (int)s.weighted({60, 8, 12, 10, 10});
+  g_case.tag(std::string("via_") + READ_VIA_NAME[via]);
+  if (via) g_case.desc += std::string(" via ") + READ_VIA_NAME[via];
+  econf_err e = read_via(via, g_scr.dir, "f", f.D, f.C, &kf);
+  VF_CHECK(e == ECONF_SUCCESS, "read-failed", "econf_" << READ_VIA_NAME[via] << " returned " << e << " (" << econf_errString(e) << ")");
   VF_CHECK(kf != nullptr, "no-object", "success but NULL object");
   Observed ob = observe(kf);
   Model m = f.model();
